@@ -36,7 +36,7 @@ PROPS["C01"] = _e1({
                  "round trip and chained-vs-direct agreement. " + V_DESC +
                  ". states = distinct (type, unit, amount bits) per exploration block; non-trivial = cross-unit "
                  "depth-0 transitions between units of different scale whose acceptance bound is <= 1e-7 relative",
-        "thorough": "as quick with depth 3 and the thorough value alphabet",
+        "thorough": "as quick with depth 3 from the quick seeds, and the additional ~170 values of the thorough alphabet closed to depth 2",
     },
     "floors": {"quick": {"types": 20, "units": 150, "transitions": 500000, "sensitive": 50000, "round_trips": 50000,
                          "identity_cases": 10000}},
